@@ -19,6 +19,7 @@ type Config struct {
 	MaxSteps         int
 	MaxDepth         int
 	MaxPaths         int
+	MaxViolPaths     int // stop exploring after this many violating paths (outside known findings)
 	MaxAlloc         int
 	MaxIteTable      int
 	MaxConcretize    int
@@ -68,6 +69,7 @@ type Engine struct {
 	touchedStb map[string]int
 	stats      Stats
 	stop       bool
+	violPaths  int
 	ifconv     atomic.Int64
 	domDecided atomic.Int64
 	initialWork [][]int64
@@ -654,6 +656,17 @@ func (eng *Engine) doneWork(res *PathResult, e *Exec) {
 		for f, n := range m {
 			eng.touchedStb[f] += n
 		}
+	}
+	for _, v := range res.Violations {
+		if v.Known == "" {
+			eng.violPaths++
+			break
+		}
+	}
+	if eng.conf.MaxViolPaths > 0 && eng.violPaths >= eng.conf.MaxViolPaths && !eng.stop && (len(eng.work) > 0 || eng.inflight > 0) {
+		// enough counterexamples outside the known findings: the verdict is decided, stop exploring
+		eng.stop = true
+		eng.stats.PathsByStatus["violcap"]++
 	}
 	if eng.conf.MaxPaths > 0 && eng.stats.Paths >= eng.conf.MaxPaths && (len(eng.work) > 0 || eng.inflight > 0) {
 		eng.stop = true
